@@ -69,3 +69,27 @@ Theorem C09_ubj_parser : forall b v, all_bytes b = true -> (zlen b <=? 922337203
   exists evs p, urun_parse None b = Ok (evs, unilE, p) /\ contract_ok evs = true.
 Proof. exact SF.Ubjson.ConformanceProofs.C09_ubj_parser. Qed.
 Print Assumptions C09_ubj_parser.
+
+(* JSON parser: for every text the RFC 8259 reference decoder accepts - one document or a
+   whitespace-separated stream of documents - the parser model accepts it, in Parse mode and
+   in EVERY chunking, and the delivered events satisfy the contract monitor.  (pf = ParseFloat
+   returns 64-bit patterns.) *)
+From SF Require Json.Spec Json.Parse Core.ComposeProofs.
+Theorem C09_json_parser : forall (pf : bytes -> option Z),
+  (forall l z, pf l = Some z -> in_u 64 z = true) ->
+  forall b v, all_bytes b = true -> SF.Json.Spec.json_decode pf b = RValue v [] ->
+  exists evs p, SF.Json.Parse.jrun_parse pf None b = Ok (evs, SF.Json.Parse.jpnil, p) /\ contract_ok evs = true /\
+    forall cs, concat cs = b -> exists p', SF.Json.Parse.jrun_chunks pf None cs = Ok (evs, SF.Json.Parse.jpnil, p').
+Proof. exact SF.Core.ComposeProofs.C09_json_parser. Qed.
+Print Assumptions C09_json_parser.
+
+Theorem C09_json_parser_stream : forall (pf : bytes -> option Z),
+  (forall l z, pf l = Some z -> in_u 64 z = true) ->
+  forall fuel b vs, all_bytes b = true -> SF.Json.Spec.json_decode_all pf fuel b = Some vs ->
+  exists ts p, SF.Json.Parse.jrun_parse pf None b = Ok (flat_map flatten ts, SF.Json.Parse.jpnil, p) /\
+    Forall (fun t => contract_ok (flatten t) = true) ts /\
+    map (fun t => cv (value_of t)) ts = vs /\
+    forall cs, concat cs = b ->
+      exists p', SF.Json.Parse.jrun_chunks pf None cs = Ok (flat_map flatten ts, SF.Json.Parse.jpnil, p').
+Proof. exact SF.Core.ComposeProofs.C09_json_parser_stream. Qed.
+Print Assumptions C09_json_parser_stream.
